@@ -9,6 +9,10 @@ head-formula atom are merged by `IntervalSet`.  Proved:
   * `time_arg_uniform`              adding the time parameter commutes with pool expansion and classical negation: every
                                     instance of the atom term gets the parameters its own predicate name asks for, and the
                                     bookkeeping is what handling the instances one by one gives
+  * `time_arg_commutes_with_substitution`  the rewriting never looks at the arguments: rewriting a schema atom and then
+                                    replacing its variables is rewriting the instance (same term, bookkeeping, rejections)
+  * `term_conversion_preserves_value`  `theory_term_to_term` (arguments of head-formula atoms, n-fold prefixes; transformers/head.py)
+                                    keeps the value of the term under every assignment: arithmetic, constant folding, tuples
   * `max_shift_is_max` / `future_sign_recorded`  `max_shift` ends as the maximum look-ahead over all instances that are
                                     not replaced; every replaced instance is recorded as a future predicate with its own sign
   * `symbol_roundtrip`              `create_symbol` applied to the theory term by which clingo presents a ground symbol
@@ -20,7 +24,8 @@ head-formula atom are merged by `IntervalSet`.  Proved:
                                     points is exactly the union of the added ranges — so the domain rule built from
                                     the merged ranges of a schema covers what the ranges of each instance cover
 PARTIAL: that clingo's grounder computes the instances is the grounder's contract; `transform_subst` (the rewriting
-commutes with substitution on the full statement AST — conditions, aggregates, theory atoms) is not proved; it is covered
+commutes with substitution on the full statement AST — conditions, aggregates, theory atoms) is proved for the terms of
+atoms only (`time_arg_commutes_with_substitution`); the statement level is covered
 by the search: schema vs its own textual instantiation over a finite domain (variables, pools, intervals, arithmetic,
 comparisons, conditions, aggregates, n-fold prefixes given by variables, #show/#external), equal answer sets.
 -/
@@ -29,6 +34,8 @@ import TelProofs.IntervalProofs
 import TelModel.Reject
 import TelProofs.TimeArgProofs
 import TelProofs.SymRoundTrip
+import TelProofs.TimeArgSubst
+import TelProofs.TermConvProofs
 
 namespace TelProofs.C06
 open TelSpec TelModel TelProofs
@@ -66,6 +73,32 @@ theorem time_arg_uniform (rf ff fp : Bool) (t : ATerm) (pos : Bool) (st : TState
     (h : addTime rf ff fp pos st t = .ok (t', st')) :
     (t.insts pos).mapM (stamp rf ff fp) = .ok (t'.insts pos) ∧ stampState rf ff fp st (t.insts pos) = .ok st' :=
   addTime_insts rf ff fp t pos st t' st' h
+
+/-- **rewriting commutes with substitution** on the term of an atom: replacing variables (any map `σ` on the argument
+    texts) before or after the rewriting gives the same term, the same bookkeeping and the same rejections -/
+theorem time_arg_commutes_with_substitution (rf ff fp : Bool) (σ : String → String) (t : ATerm) (pos : Bool) (st : TState) :
+    addTime rf ff fp pos st (ATerm.substArgs σ t) =
+      (addTime rf ff fp pos st t).map (fun p => (RTerm.substArgs σ p.1, p.2)) :=
+  addTime_subst rf ff fp σ t pos st
+
+/-- non-vacuity: `-p'(X) ; q(X,Y)` in a normal head with X ↦ 1, Y ↦ 2 -/
+example : addTime true false true true {} (ATerm.substArgs (fun v => if v == "X" then "1" else "2")
+            (.pool [.neg (.fn "p'" ["X"]), .fn "q" ["X", "Y"]])) =
+          .ok (.pool [.neg (.fn "__future_p" ["1"] [.num 1, .time 1]), .fn "q" ["1", "2"] [.time 0]],
+               { futures := [("p", 1, false, 1)], maxShift := 0 }) := by rfl
+
+/-- **arithmetic inside head formulas**: `theory_term_to_term` (the arguments of the atoms of a head formula, the prefix
+    of an n-fold next) turns a theory term into a plain term that has, under every assignment of the variables, the value
+    the theory term reads — `-` / `+` as arithmetic with constants folded, tuples as tuples, function symbols as such -/
+theorem term_conversion_preserves_value (tbl : List Generated.OpEntry) (σ : String → GVal) (t : HTerm) (p : PTerm)
+    (h : convTerm tbl t = .ok p) : p.eval σ = t.eval σ :=
+  conv_preserves tbl σ t p h
+
+/-- non-vacuity: `p(X-2+1, (2+3)-X, (1,2))` with X ↦ 5 -/
+example :
+    (convTerm Generated.headTablePy (.fn "p" [.fn "+" [.fn "-" [.var "X", .num 2], .num 1], .fn "-" [.fn "+" [.num 2, .num 3], .var "X"],
+        .tuple [.num 1, .num 2]])).toOption.bind (PTerm.eval (fun _ => .num 5)) =
+      some (.fn "p" [.num 4, .num 0, .fn "" [.num 1, .num 2] true] true) := by rfl
 
 /-- `max_shift` after an atom term: at least every look-ahead that is not replaced, and attained -/
 theorem max_shift_is_max (rf ff fp : Bool) (t : ATerm) (st : TState) (t' : RTerm) (st' : TState)
